@@ -114,3 +114,30 @@ Lemma ex_file_valid :
   file_create ex_f = Ret true ex_f' /\
   AR.validate_file GA (o_file ex_f' [d_build GT ex_b ex_des ex_p2]) = AR.ROk.
 Proof. vm_compute. split; reflexivity. Qed.
+
+(* ---- phase 8: File.Create, end to end with C03 ------------------------------------ *)
+(* The file control that File.Create tabulates equals sums over the ENTRIES of the created
+   file's batches (C03GenObl.file_entries_spec): composition of c05_file_create_arith_valid
+   with C03Obl.c03_file_arith and C03GenObl.c03_batch_arith_general. *)
+From ACH Require C03Obl C03GenObl.
+
+Lemma c05_file_create_entries f f' dess :
+  file_create f = Ret true f' -> length dess = length (f_batches f) ->
+  Forall (fun x => AR.validate_batch GA x = AR.ROk) (o_batches (f_batches f) dess) ->
+  forallb (fun b => b_num b <=? 1) (f_batches f) = true ->
+  fctl_fits GA (o_fctl (f_ctl f')) ->
+  AR.is_adv_file (o_file f' dess) = false ->
+  C03GenObl.file_entries_spec (o_file f' dess) (o_batches (f_batches f') dess).
+Proof.
+  intros Hc Hl Hall Hn Hfit Hadv.
+  pose proof (c05_file_create_arith_valid f f' dess Hc Hl Hall Hn Hfit) as Hv.
+  destruct (C03Obl.c03_file_arith (o_file f' dess) Hv Hadv) as (_ & Hs & Hb & _).
+  unfold AR.all_batches in Hs. cbn [AR.fl_batches AR.fl_iat o_file] in Hs, Hb.
+  rewrite app_nil_r in Hs.
+  apply C03GenObl.file_sums_entries; assumption.
+Qed.
+
+Lemma ex_file_entries :
+  AR.is_adv_file (o_file ex_f' [d_build GT ex_b ex_des ex_p2]) = false /\
+  o_batches (f_batches ex_f') [d_build GT ex_b ex_des ex_p2] <> [].
+Proof. vm_compute. split; [reflexivity|discriminate]. Qed.
